@@ -89,3 +89,8 @@ CHECKS["C18"] = (
     "Good hosts send 1..6 duplicate replies from both ports; bad hosts send one class of malformed reply (12 classes, each enumerated over its parameter, e.g. body cut at every length 0..45). All permutations of small multisets of replies are enumerated; larger ones are sampled. discover() must never raise and must report exactly the good hosts, once each, with their identity; with auto_connect a V2 host backed by a model device must come online.",
     "Bad classes are limited to replies that cannot be parsed for certain (cuts inside the name that still parse are not asserted either way); V3 auto-connect is C19's domain.",
     "DESIGN.md 3/C18")
+CHECKS["C19"] = (
+    "exploration", "Hypothesis generation of accounts, token lists with near-miss ids and per-endpoint fault scripts against a model cloud that verifies every request; end-to-end discovery leg with a V3 model device registered under either byte order",
+    "A model NetHome Plus server (httpx.MockTransport injected through the library's own get_async_client parameter) recomputes the signature from the received fields, checks the constant fields, login id, password derivation, session id and udpid, and records every failed check; the client must return exactly the matching token/key entry (never a prefix/suffix/case-flipped/one-digit-off neighbour) or CloudError, and must surface timeouts, HTTP and API errors as CloudError/ApiError after the right number of POSTs. The discovery leg requires a V3 device whose credentials are registered under the little- or big-endian udpid to end up authenticated with exactly those credentials.",
+    "ASCII accounts/passwords; JSON always well-formed; signature scheme as publicly documented for NetHome Plus.",
+    "DESIGN.md 3/C19")
